@@ -161,7 +161,7 @@ def canon_case(case, line):
     rank = case.meta["rank"]
     res = []
     for seg in split_out(line):
-        if seg.startswith("dump[") or seg.startswith("dumperr"):
+        if seg.startswith("dump[") or seg.startswith("dumperr") or seg.startswith("free[") or seg in ("xok",) or seg.startswith("xerr"):
             continue
         if seg.startswith("scan["):
             body = seg[5:-1]
